@@ -295,6 +295,7 @@ pub fn gen_opts(rng: &mut StdRng, p: &Profile, const_cap: bool, fixed: Option<us
         seed: rng.gen(),
         cancel_at: None,
         tmpdir: None,
+        retry_same_builder: false,
     }
 }
 
